@@ -8,6 +8,8 @@ package main
 
 import (
 	"fmt"
+	"os"
+	"path/filepath"
 	"sort"
 	"strings"
 
@@ -20,7 +22,15 @@ import (
 	"verifharness/hx"
 )
 
-const limit = 100 // volumeSizeLimit of every case
+// volumeSizeLimit of a case: one of these (the fixed witnesses use 100)
+var limits = []uint64{100, 64, 1000}
+
+// growThreshold handed to CollectDeadNodeAndFullVolumes (the master's default
+// volumeGrowth threshold); the model compares size*10 > limit*9
+const growThreshold = 0.9
+
+// crowdEdge: the largest size that is NOT crowded under the limit (size*10 <= limit*9)
+func crowdEdge(limit uint64) uint64 { return limit * 9 / 10 }
 
 type vinfo struct {
 	id   uint32
@@ -51,6 +61,7 @@ type config struct {
 	asMin bool
 	nodes int
 	nv    int
+	limit uint64
 }
 
 func coqInfo(v vinfo) string {
@@ -114,7 +125,7 @@ type world struct {
 }
 
 func newWorld(cfg config) *world {
-	w := &world{cfg: cfg, topo: topology.VerifC11NewTopology(limit, 5, cfg.asMin), streams: map[int]*topology.DataNode{}}
+	w := &world{cfg: cfg, topo: topology.VerifC11NewTopology(cfg.limit, 5, cfg.asMin), streams: map[int]*topology.DataNode{}}
 	for _, k := range cfg.keys {
 		rp, err := super_block.NewReplicaPlacementFromString(k.rp)
 		hx.Must(err)
@@ -166,7 +177,7 @@ func (w *world) apply(e event) {
 		}
 		w.topo.IncrementalSyncDataNodeRegistration(sh(e.news), sh(e.dels), d)
 	case "collect":
-		topology.VerifC11CollectFull(w.topo, 0.9)
+		topology.VerifC11CollectFull(w.topo, growThreshold)
 	case "close":
 		if d := w.streams[e.st]; d != nil {
 			w.topo.UnRegisterDataNode(d)
@@ -255,8 +266,12 @@ func (w *world) observe(out *hx.Out) (string, bool) {
 		} else if pdc != 0 {
 			out.Count("obs:pick-rack-hit", 1)
 		}
-		lays = append(lays, fmt.Sprintf("{| lo_writ := %s; lo_loc := %s; lo_ro := %s; lo_os := %s; lo_pick := (%d%%N, %s); lo_pickdc := %d |}",
-			sortedU32(writ), vmap(topology.VerifC11Vid2Location(vl)), vmap(topology.VerifC11ReadonlyCopies(vl)),
+		crowd := topology.VerifC11Crowded(vl)
+		if len(crowd) > 0 {
+			out.Count("obs:crowded-nonempty", 1)
+		}
+		lays = append(lays, fmt.Sprintf("{| lo_writ := %s; lo_crowd := %s; lo_loc := %s; lo_ro := %s; lo_os := %s; lo_pick := (%d%%N, %s); lo_pickdc := %d |}",
+			sortedU32(writ), sortedU32(crowd), vmap(topology.VerifC11Vid2Location(vl)), vmap(topology.VerifC11ReadonlyCopies(vl)),
 			vmap(topology.VerifC11OversizedCopies(vl)), pv, pl, pdc))
 	}
 	var look []string
@@ -278,7 +293,47 @@ func (w *world) observe(out *hx.Out) (string, bool) {
 
 // ---------- generation ----------
 
-var sizes = []uint64{0, 10, 50, 99, 100, 101, 150}
+// size classes relative to the case's limit L (crowded edge E = 9L/10):
+//
+//	small    {0, 10, L/2}
+//	boundary {E-1, E, E+1, L-1, L, L+1}   every size-dependent branch: isOversized (>= L),
+//	         the collector's full test (>= L) and its crowded test (size > 0.9 L)
+//	big      {L+50}
+func smallSizes(l uint64) []uint64 { return []uint64{0, 10, l / 2} }
+func boundarySizes(l uint64) []uint64 {
+	e := crowdEdge(l)
+	return []uint64{e - 1, e, e + 1, l - 1, l, l + 1}
+}
+func isBoundary(l, sz uint64) bool {
+	for _, b := range boundarySizes(l) {
+		if b == sz {
+			return true
+		}
+	}
+	return false
+}
+
+// pickSize: at creation mostly small (so the volume becomes writable first),
+// at a resize mostly a boundary value
+func (g *gen) pickSize(create bool, out *hx.Out) uint64 {
+	l := g.cfg.limit
+	c := g.r.Intn(100)
+	small, bnd := 25, 90
+	if create {
+		small, bnd = 55, 95
+	}
+	switch {
+	case c < small:
+		return g.r.PickU64(smallSizes(l))
+	case c < bnd:
+		sz := g.r.PickU64(boundarySizes(l))
+		out.Count(fmt.Sprintf("size:limit%+d", int64(sz)-int64(l)), 1)
+		return sz
+	default:
+		return l + 50
+	}
+}
+
 var rps = []string{"000", "001", "010", "002", "011", "200"}
 
 func copies(rp string) int {
@@ -297,6 +352,7 @@ type gen struct {
 	srv   map[int]map[uint32]*vinfo // what each volume server currently stores
 	last  map[int][]vinfo           // last full heartbeat sent by a server
 	open  map[int][]int             // open slots of an address, oldest first
+	sweep bool                      // a boundary size was just reported: a collector sweep is due
 }
 
 func (g *gen) snapshot(n int) []vinfo {
@@ -323,17 +379,36 @@ func (g *gen) keyFor(vid uint32, out *hx.Out) int {
 
 func (g *gen) mutate(n int, out *hx.Out) {
 	m := g.srv[n]
+	// volumes grow: a stored volume below the limit often reaches an edge value
+	// (just under / at / just over the crowded edge and the limit) by the next heartbeat
+	var vids []int
+	for vid := range m {
+		vids = append(vids, int(vid))
+	}
+	sort.Ints(vids)
+	for _, vid := range vids {
+		v := m[uint32(vid)]
+		if v.size < g.cfg.limit && g.r.Chance(1, 3) {
+			old := v.size
+			v.size = g.r.PickU64(boundarySizes(g.cfg.limit))
+			out.Count(fmt.Sprintf("size:limit%+d", int64(v.size)-int64(g.cfg.limit)), 1)
+			g.sweep = true
+			if old < g.cfg.limit && v.size >= g.cfg.limit {
+				out.Count("srv:size-crosses-limit", 1)
+			} else {
+				out.Count("srv:grow", 1)
+			}
+		}
+	}
 	k := g.r.Range(0, 2)
 	for i := 0; i < k; i++ {
 		vid := uint32(g.r.Range(1, g.cfg.nv))
 		v := m[vid]
 		switch c := g.r.Intn(10); {
 		case v == nil && c < 7:
-			sz := sizes[g.r.Intn(4)] // mostly below the limit at creation
-			if g.r.Chance(1, 6) {
-				sz = g.r.PickU64(sizes)
-			}
+			sz := g.pickSize(true, out)
 			m[vid] = &vinfo{id: vid, size: sz, ro: g.r.Chance(1, 6), key: g.keyFor(vid, out)}
+			g.sweep = g.sweep || isBoundary(g.cfg.limit, sz)
 			out.Count("srv:add", 1)
 		case v == nil:
 		case c < 2:
@@ -341,7 +416,9 @@ func (g *gen) mutate(n int, out *hx.Out) {
 			out.Count("srv:delete", 1)
 		case c < 6:
 			old := v.size
-			v.size = g.r.PickU64(sizes)
+			v.size = g.pickSize(false, out)
+			g.sweep = g.sweep || isBoundary(g.cfg.limit, v.size)
+			limit := g.cfg.limit
 			if old < limit && v.size >= limit {
 				out.Count("srv:size-crosses-limit", 1)
 			} else {
@@ -359,6 +436,16 @@ func (g *gen) mutate(n int, out *hx.Out) {
 }
 
 func (g *gen) next(out *hx.Out) event {
+	if g.sweep {
+		// a boundary size went out with the last full heartbeat: the periodic sweep
+		// often comes before anything else changes
+		g.sweep = false
+		if g.r.Chance(3, 5) {
+			out.Count("ev:collect", 1)
+			out.Count("ev:collect-after-boundary-report", 1)
+			return event{kind: "collect"}
+		}
+	}
 	n := g.r.Range(1, g.cfg.nodes)
 	slots := g.open[n]
 	if len(slots) == 0 {
@@ -482,45 +569,100 @@ func runCase(out *hx.Out, cfg config, evs []event, kind string) {
 		out.Count("rp:"+k.rp, 1)
 	}
 	term := fmt.Sprintf("{| k_mc := {| mc_copies := [%s]%%N; mc_asmin := %s; mc_limit := %d |}; k_univ := [%s]%%N; k_evs := %s; k_impl := %s |}",
-		strings.Join(cp, "; "), hx.Bool(cfg.asMin), limit, strings.Join(univ, "; "), hx.List(ev), hx.List(obs))
-	out.Add(term, fmt.Sprintf("%s/%v/%d|%s", strings.Join(ks, ","), cfg.asMin, cfg.nodes, strings.Join(canon, ";")), nontrivial, kind)
+		strings.Join(cp, "; "), hx.Bool(cfg.asMin), cfg.limit, strings.Join(univ, "; "), hx.List(ev), hx.List(obs))
+	out.Add(term, fmt.Sprintf("%s/%v/%d/%d|%s", strings.Join(ks, ","), cfg.asMin, cfg.nodes, cfg.limit, strings.Join(canon, ";")), nontrivial, kind)
+	out.Count(fmt.Sprintf("limit:%d", cfg.limit), 1)
 	out.Count(fmt.Sprintf("layouts:%d", len(cfg.keys)), 1)
 	if cfg.asMin {
 		out.Count("asMin", 1)
 	}
 }
 
+// The sweep is driven by the hook topology.VerifC11CollectFull: the real
+// CollectDeadNodeAndFullVolumes plus a consumer loop that repeats the one of
+// Topology.StartRefreshWritableVolumes (which only runs under a raft leader).
+// tieRefreshLoop fails the run when the source of that function no longer
+// contains the call and the consumer loop the hook repeats.
+func tieRefreshLoop() {
+	repo := os.Getenv("VERIF_REPO")
+	if repo == "" {
+		repo = "/repo"
+	}
+	b, err := os.ReadFile(filepath.Join(repo, "weed", "topology", "topology_event_handling.go"))
+	hx.Must(err)
+	src := strings.Join(strings.Fields(string(b)), " ")
+	for _, want := range []string{
+		"t.CollectDeadNodeAndFullVolumes(freshThreshHold, t.volumeSizeLimit, growThreshold)",
+		"go func() { for { select { case fv := <-t.chanFullVolumes: t.SetVolumeCapacityFull(fv) case cv := <-t.chanCrowdedVolumes: t.SetVolumeCrowded(cv) } } }()",
+	} {
+		if !strings.Contains(src, want) {
+			fmt.Fprintf(os.Stderr, "C11: Topology.StartRefreshWritableVolumes no longer contains %q: the hook VerifC11CollectFull does not repeat the master's loop any more\n", want)
+			os.Exit(3)
+		}
+	}
+}
+
 func main() {
 	out := hx.Flags("C11", 300)
+	tieRefreshLoop()
 	fla9.Set("alsologtostderr", "false") // glog: files under TMPDIR only
-	out.Rule = "cases 0-6: fixed witnesses of known findings 0-4; then random histories (8-26 events) over 2-4 volume servers, vids 1..nv (nv 2-4), volumeSizeLimit 100, sizes from {0,10,50,99,100,101,150}. Half of the cases are PLAIN (one layout, one stream per server, fixed racks): connect, full heartbeats from a simulated volume server (add/delete/resize/read-only flip, duplicates of the last one), incremental new/deleted messages (real, stale, duplicate, two volumes), collector sweeps, end of stream + reconnect. The other half use 2-3 layouts (collection ''/'c1' x replication of {000,001,010,002,011,200}) with replicas reported under another layout, replication changes on a server, incremental messages naming another layout, reconnects under the other rack, overlapping streams of one server (same or other rack), heartbeats on the superseded stream and its late end. Observables after every step; non-trivial = some writables non-empty at some step; distinct = config + canonical event list"
+	out.Rule = "cases 0-6: fixed witnesses of known findings 0-4 (limit 100); cases 7-10: boundary histories with vids 1,2,3 at x-1, x, x+1 around the edge of each size-dependent branch (collector full test after a small registration, one replica of two, isOversized at registration, collector crowded test), limit L = {100,64,1000}[seed mod 3]; then random histories (8-26 events) over 2-4 volume servers, vids 1..nv (nv 2-4), L drawn from {100,64,1000}, sizes from small {0,10,L/2}, boundary {E-1,E,E+1,L-1,L,L+1} (E = 9L/10, the crowded edge) and big {L+50}: creation mostly small, resizes mostly boundary, every stored volume below L grows to a boundary value with chance 1/3 per full heartbeat, and a collector sweep follows a boundary report with chance 3/5. Half of the cases are PLAIN (one layout, one stream per server, fixed racks): connect, full heartbeats from a simulated volume server (add/delete/resize/grow/read-only flip, duplicates of the last one), incremental new/deleted messages (real, stale, duplicate, two volumes), collector sweeps, end of stream + reconnect. The other half use 2-3 layouts (collection ''/'c1' x replication of {000,001,010,002,011,200}) with replicas reported under another layout, replication changes on a server, incremental messages naming another layout, reconnects under the other rack, overlapping streams of one server (same or other rack), heartbeats on the superseded stream and its late end. The sweep is the real CollectDeadNodeAndFullVolumes (growThreshold 0.9) + SetVolumeCapacityFull / SetVolumeCrowded. Observables after every step (writables, crowded, vid2location, read-only / oversized lists, picks, lookups, DataNode objects); non-trivial = some writables non-empty at some step; distinct = config + canonical event list"
 	f := false
 	k000 := []lkey{{"", "000"}}
 	conn := func(st, n, rack int) event { return event{kind: "conn", st: st, node: n, rack: rack} }
 	full := func(st int, vs ...vinfo) event { return event{kind: "full", st: st, vols: vs} }
 	// fixed witnesses (independent of the seed)
-	runCase(out, config{k000, false, 1, 1}, []event{conn(1, 1, 1),
+	runCase(out, config{k000, false, 1, 1, 100}, []event{conn(1, 1, 1),
 		full(1, vinfo{1, 10, f, 0}), full(1, vinfo{1, 150, f, 0}), {kind: "collect"},
 		full(1, vinfo{1, 150, true, 0}), full(1, vinfo{1, 150, f, 0}),
 	}, "witness0-readmitted-after-collect")
-	runCase(out, config{k000, true, 2, 1}, []event{conn(1, 1, 1), conn(2, 2, 0),
+	runCase(out, config{k000, true, 2, 1, 100}, []event{conn(1, 1, 1), conn(2, 2, 0),
 		full(1, vinfo{1, 10, f, 0}), full(2, vinfo{1, 150, f, 0}),
 	}, "witness0-asmin-oversized-joins")
-	runCase(out, config{[]lkey{{"", "000"}, {"", "001"}}, false, 1, 1}, []event{conn(1, 1, 1),
+	runCase(out, config{[]lkey{{"", "000"}, {"", "001"}}, false, 1, 1, 100}, []event{conn(1, 1, 1),
 		full(1, vinfo{1, 10, f, 0}), full(1, vinfo{1, 10, f, 1}), full(1),
 	}, "witness1-replication-changed-then-deleted")
-	runCase(out, config{k000, false, 1, 2}, []event{conn(1, 1, 1), full(1, vinfo{1, 10, f, 0}),
+	runCase(out, config{k000, false, 1, 2, 100}, []event{conn(1, 1, 1), full(1, vinfo{1, 10, f, 0}),
 		conn(11, 1, 1), {kind: "close", st: 1}, full(11, vinfo{1, 10, f, 0}, vinfo{2, 10, f, 0}),
 	}, "witness2-heartbeat-on-unlinked-object")
-	runCase(out, config{k000, false, 1, 1}, []event{conn(1, 1, 1), full(1, vinfo{1, 10, f, 0}),
+	runCase(out, config{k000, false, 1, 1, 100}, []event{conn(1, 1, 1), full(1, vinfo{1, 10, f, 0}),
 		conn(11, 1, 0), full(11, vinfo{1, 10, f, 0}), {kind: "close", st: 1}, full(11, vinfo{1, 10, f, 0}),
 	}, "witness2-late-unregister-of-superseded-object")
-	runCase(out, config{k000, false, 1, 1}, []event{conn(1, 1, 1),
+	runCase(out, config{k000, false, 1, 1, 100}, []event{conn(1, 1, 1),
 		full(1, vinfo{1, 10, true, 0}), {kind: "incr", st: 1, news: []short{{1, 0}}},
 	}, "witness3-short-message-resets-readonly")
-	runCase(out, config{[]lkey{{"c1", "011"}, {"c1", "002"}}, false, 3, 3}, []event{conn(2, 2, 0), conn(3, 3, 1),
+	runCase(out, config{[]lkey{{"c1", "011"}, {"c1", "002"}}, false, 3, 3, 100}, []event{conn(2, 2, 0), conn(3, 3, 1),
 		full(2, vinfo{3, 10, f, 0}), full(3, vinfo{3, 10, f, 1}),
 	}, "witness4-replicas-under-two-layouts")
+
+	// boundary histories, on every run: L rotates with the seed (the shards of one
+	// run have consecutive seeds, so one run covers every limit); vids 1,2,3 get the
+	// sizes x-1, x, x+1 around the edge x of a size-dependent branch
+	{
+		l := limits[int(out.Seed%uint64(len(limits)))]
+		e := crowdEdge(l)
+		three := func(a, b, c uint64) []vinfo { return []vinfo{{1, a, f, 0}, {2, b, f, 0}, {3, c, f, 0}} }
+		k001 := []lkey{{"", "001"}}
+		// collector's full test: registered small (writable), then reported around L, sweep, read-only flip and back
+		runCase(out, config{k000, false, 1, 3, l}, []event{conn(1, 1, 1), full(1, three(10, 10, 10)...),
+			full(1, three(l-1, l, l+1)...), {kind: "collect"},
+			full(1, vinfo{1, l - 1, true, 0}, vinfo{2, l, true, 0}, vinfo{3, l + 1, true, 0}), full(1, three(l-1, l, l+1)...), {kind: "collect"},
+		}, "boundary-collect-full")
+		// two replicas, only one of them reaches the edge
+		runCase(out, config{k001, false, 2, 3, l}, []event{conn(1, 1, 1), conn(2, 2, 0), full(1, three(10, 10, 10)...), full(2, three(10, 10, 10)...),
+			full(2, three(l-1, l, l+1)...), {kind: "collect"}, full(2, three(10, 10, 10)...), {kind: "collect"},
+		}, "boundary-collect-one-replica")
+		// isOversized at registration
+		runCase(out, config{k000, false, 1, 3, l}, []event{conn(1, 1, 1), full(1, three(l-1, l, l+1)...), {kind: "collect"},
+			full(1, vinfo{1, l - 1, true, 0}, vinfo{2, l, true, 0}, vinfo{3, l + 1, true, 0}), full(1, three(l-1, l, l+1)...),
+			{kind: "close", st: 1}, conn(1, 1, 1), full(1, three(l-1, l-1, l-1)...),
+		}, "boundary-register-oversized")
+		// collector's crowded test
+		runCase(out, config{k000, false, 1, 3, l}, []event{conn(1, 1, 1), full(1, three(10, 10, 10)...),
+			full(1, three(e-1, e, e+1)...), {kind: "collect"}, full(1, three(e+1, l, 10)...), {kind: "collect"},
+			full(1, vinfo{1, e + 1, true, 0}, vinfo{2, l, f, 0}, vinfo{3, e + 1, f, 0}), {kind: "collect"},
+		}, "boundary-collect-crowded")
+	}
 
 	// Fork once: hx.NewRng(seed+1) is hx.NewRng(seed) advanced by one draw, and the
 	// shards of one run use consecutive seeds
@@ -528,7 +670,7 @@ func main() {
 	for out.Len() < out.N {
 		r := root.Fork()
 		plain := r.Bool()
-		cfg := config{asMin: r.Chance(3, 10), nodes: r.Range(2, 4), nv: r.Range(2, 4)}
+		cfg := config{asMin: r.Chance(3, 10), nodes: r.Range(2, 4), nv: r.Range(2, 4), limit: r.PickU64(limits)}
 		nk := 1
 		if !plain {
 			nk = r.Range(2, 3)
